@@ -1,0 +1,13 @@
+//go:build verif
+
+// Contracts for package transactor, read by /verif/govc.
+package transactor
+
+// A transaction body is arbitrary code of the caller: it may change anything.  What the transactor that runs
+// it is accountable for is the context it hands the body and what it does with the body's verdict; both are
+// recorded in ghost state (world.fnCtx, world.fnErr) by this contract of every call of a TransactionFn value.
+//@ iface TransactionFn.call
+//@   params ctx
+//@   requires ctx: ctx != nil
+//@   modifies *
+//@   ensures rec: world.fnCtx == ctx && world.fnErr == result && world.fnCalls == old(world.fnCalls) + 1
